@@ -9,21 +9,24 @@
                   chains, early `return` instead of else, nested ifs, negated tests with swapped branches are the same leaves;
 * alias_value():  three-valued value of a branch condition under an aliasing pattern of the array parameters (pointer
                   equalities, !, &&, ||, bool locals); `size == 0` shortcuts are recognised as such;
-* partitions():   the aliasing patterns (set partitions) of the array parameters.
+* partitions():   the aliasing patterns (set partitions) of the array parameters;
+* inline_helpers(): statement-level inlining of helpers defined under kernel/lafem (arguments - arrays, scalars, lambdas -
+                  substituted for the parameters, lambda calls beta-reduced), `if constexpr` folded, std::fill/copy as loops.
 Unrecognised constructs raise lafem_roles.Unknown (the caller answers analysis-incomplete).
 """
 from featlib import walk, render
 from lafem_roles import Unknown, strip, is_zero, stmts
 
 
-def _step(inc):
-    """increment expression -> {decl id: +1 | -1} (lock-step comma chains allowed) or None"""
+def _step(inc, general=False):
+    """increment expression -> {decl id: +1 | -1} (lock-step comma chains allowed) or None; with general=True a variable may
+    also advance by an arbitrary expression: {decl id: ('by', node)} for `v += e` / `v = v + e`"""
     inc = strip(inc) if inc is not None else None
     if inc is None:
         return None
     k = inc.get("k")
     if k == "Bin" and inc.get("op") == ",":
-        a, b = _step(inc["lhs"]), _step(inc["rhs"])
+        a, b = _step(inc["lhs"], general), _step(inc["rhs"], general)
         if a is None or b is None or set(a) & set(b):
             return None
         a.update(b)
@@ -46,6 +49,13 @@ def _step(inc):
                 x1, x2 = x2, x1
             if x1.get("k") == "Ref" and x1.get("d") == t["d"] and x2.get("k") == "Int" and int(x2["v"]) == 1:
                 return {t["d"]: 1 if r["op"] == "+" else -1}
+            if general and r["op"] == "+":
+                if not (x1.get("k") == "Ref" and x1.get("d") == t["d"]):
+                    x1, x2 = x2, x1
+                if x1.get("k") == "Ref" and x1.get("d") == t["d"] and not _mentions(x2, t["d"]):
+                    return {t["d"]: ("by", x2)}
+        if general and inc.get("op") == "+=" and not _mentions(r, t["d"]):
+            return {t["d"]: ("by", r)}
     return None
 
 
@@ -103,20 +113,30 @@ def fold_continue(sts):
     return sts
 
 
-def loop_form(n):
-    """For node -> dict(var, lo, hi, down, others={d: lo}) for one induction by steps of one, else None.
-    up:   v runs lo, lo+1, ..., hi-1            (`v < hi` | `v != hi` | `hi > v` | `hi != v`)
-    down: v runs hi, hi-1, ..., lo+1            (`v > lo` | `v != lo` | `lo < v`): the body sees v-1 in [lo, hi)"""
+def loop_form(n, cursors=False):
+    """For node -> dict(var, lo, hi, hi_off, down, others={d: lo}, cursors={d: (start or None, step node)}) for one induction by
+    steps of one, else None.
+    up:   v runs lo, lo+1, ..., hi-1            (`v < hi` | `v != hi` | `hi > v` | `hi != v` | `v <= hi - 1`)
+    down: v runs hi, hi-1, ..., lo+1            (`v > lo` | `v != lo` | `lo < v`): the body sees v-1 in [lo, hi)
+    others: further variables declared in the header and advanced by one in lock step (pointer cursors);
+    cursors (only with cursors=True): running positions advanced by a loop-invariant amount in the header (`pos += stride`),
+    declared in the header (start given) or in front of the loop (start None: the caller takes their initialiser); in
+    iteration k of an up loop such a variable holds start + k*step"""
     if n.get("k") != "For":
         return None
     init, c, inc = n.get("init"), n.get("c"), n.get("inc")
     if init is None or c is None or inc is None or init.get("k") != "Decl" or not init.get("vars"):
         return None
-    step = _step(inc)
+    step = _step(inc, general=cursors)
     if not step:
         return None
     vars_ = {v["d"]: v for v in init["vars"]}
-    if set(vars_) != set(step) or any(v.get("init") is None for v in vars_.values()):
+    run = {d: st for d, st in step.items() if isinstance(st, tuple) or d not in vars_}
+    if run and not cursors:
+        return None
+    for d in run:
+        del step[d]
+    if not step or set(vars_) - set(run) != set(step) or any(v.get("init") is None for v in vars_.values()):
         return None
     if len(set(step.values())) != 1:
         return None
@@ -134,6 +154,8 @@ def loop_form(n):
         return None
     hi_off = 1 if op == "<=" else 0          # `v <= e` is `v < e + 1`
     d = l["d"]
+    if d not in step:
+        return None
     body = n.get("body")
     # the induction variables are not written in the body
     for y in walk(body):
@@ -142,10 +164,22 @@ def loop_form(n):
         if y.get("k") == "Un" and y.get("op") in ("++", "--") and strip(y["e"]).get("k") == "Ref" and strip(y["e"]).get("d") in vars_:
             return None
     start = strip(vars_[d]["init"])
-    others = {d2: strip(v["init"]) for d2, v in vars_.items() if d2 != d}
+    others = {d2: strip(v["init"]) for d2, v in vars_.items() if d2 != d and d2 not in run}
+    curs = {}
+    for d2, st in run.items():
+        stn = st[1] if isinstance(st, tuple) else {"k": "Int", "v": str(st)}
+        if any(_mentions(stn, dd) for dd in list(vars_) + list(run)) or _mentions(r, d2):
+            return None
+        for y in walk(body):
+            if (y.get("k") == "Assign" and strip(y["lhs"]).get("k") == "Ref" and strip(y["lhs"]).get("d") == d2) or \
+               (y.get("k") == "Un" and y.get("op") in ("++", "--", "&") and strip(y["e"]).get("k") == "Ref" and strip(y["e"]).get("d") == d2):
+                return None
+        curs[d2] = (strip(vars_[d2]["init"]) if d2 in vars_ else None, stn)
     if down:
-        return {"var": d, "lo": r, "hi": start, "hi_off": 0, "down": True, "others": others, "vars": vars_}
-    return {"var": d, "lo": start, "hi": r, "hi_off": hi_off, "down": False, "others": others, "vars": vars_}
+        if curs:
+            return None
+        return {"var": d, "lo": r, "hi": start, "hi_off": 0, "down": True, "others": others, "cursors": curs, "vars": vars_}
+    return {"var": d, "lo": start, "hi": r, "hi_off": hi_off, "down": False, "others": others, "cursors": curs, "vars": vars_}
 
 
 def decision_leaves(body, limit=64):
@@ -366,3 +400,194 @@ def array_units(fn, loc, call, blocked_classes):
         else:
             cdesc = render(cnt)[:60]
     return ptr_units, cu, "%s with count %s" % (", ".join(desc), cdesc)
+
+
+# =====================================================================================================
+# helper inlining on the statement trees (helpers with status/values, lambdas bound to parameters), `if constexpr`
+# folding and standard algorithms as the loops they stand for -> a synthetic Function the kernel rules can read
+# =====================================================================================================
+import copy as _copy
+import itertools as _itertools
+
+_fresh = _itertools.count(10 ** 9)
+
+
+def subst(node, mapping, rename=None):
+    """deep copy of a fact tree in which every Ref to a decl id in `mapping` is replaced by (a copy of) mapping[d] and
+    local decl ids are renamed by `rename` (decl id -> fresh decl id)"""
+    rename = rename or {}
+    if isinstance(node, list):
+        return [subst(x, mapping, rename) for x in node]
+    if not isinstance(node, dict):
+        return node
+    if node.get("k") == "Ref" and node.get("d") in mapping:
+        return _copy.deepcopy(mapping[node["d"]])
+    out = {}
+    for k, v in node.items():
+        out[k] = subst(v, mapping, rename) if isinstance(v, (dict, list)) else v
+    if out.get("k") in ("Ref", "Var") and out.get("d") in rename:
+        out["d"] = rename[out["d"]]
+    return out
+
+
+def _written_decls(body):
+    w = set()
+    for y in walk(body):
+        k = y.get("k")
+        if k == "Assign" and strip(y["lhs"]).get("k") == "Ref":
+            w.add(strip(y["lhs"])["d"])
+        elif k == "Un" and y.get("op") in ("++", "--", "&") and strip(y["e"]).get("k") == "Ref":
+            w.add(strip(y["e"])["d"])
+    return w
+
+
+def fold_constexpr(sts):
+    """`if constexpr` with a literal condition (instantiated templates) -> the statements of the live branch"""
+    out = []
+    for s in sts:
+        if s.get("k") == "If" and s.get("constexpr") and strip(s["c"]).get("k") == "Bool":
+            br = s.get("then") if strip(s["c"])["v"] else s.get("else")
+            if br is not None and br.get("k") != "Null_":
+                out.extend(fold_constexpr(stmts(br)))
+            continue
+        out.append(s)
+    return out
+
+
+def algorithm_loop(s):
+    """expression statement that calls std::fill / std::fill_n / std::copy / std::copy_n -> the (synthetic) for loop it stands for"""
+    if s.get("k") != "Call" or s.get("callee") not in ("std::fill", "std::fill_n", "std::copy", "std::copy_n") or len(s.get("a", [])) != 3:
+        return None
+    a = s["a"]
+    d = next(_fresh)
+    l = s.get("l")
+    t = {"k": "Ref", "n": "_k", "d": d, "dk": "local", "l": l}
+    if s["callee"] == "std::fill":
+        cnt, tgt, val = {"k": "Bin", "op": "-", "lhs": a[1], "rhs": a[0], "l": l}, a[0], a[2]
+    elif s["callee"] == "std::fill_n":
+        cnt, tgt, val = a[1], a[0], a[2]
+    elif s["callee"] == "std::copy":
+        cnt, tgt, val = {"k": "Bin", "op": "-", "lhs": a[1], "rhs": a[0], "l": l}, a[2], {"k": "Index", "b": a[0], "idx": dict(t), "l": l}
+    else:
+        cnt, tgt, val = a[1], a[2], {"k": "Index", "b": a[0], "idx": dict(t), "l": l}
+    return {"k": "For", "l": l, "i": s.get("i"), "synthetic": True,
+            "init": {"k": "Decl", "l": l, "vars": [{"k": "Var", "n": "_k", "d": d, "l": l, "init": {"k": "Int", "v": "0", "l": l}}]},
+            "c": {"k": "Bin", "op": "<", "lhs": dict(t), "rhs": cnt, "l": l},
+            "inc": {"k": "Un", "op": "++", "e": dict(t), "l": l},
+            "body": {"k": "Block", "l": l, "s": [{"k": "Assign", "op": "=", "lhs": {"k": "Index", "b": tgt, "idx": dict(t), "l": l}, "rhs": val, "l": l}]}}
+
+
+def inline_helpers(fn, max_depth=3):
+    """-> a Function whose body has (a) calls to helpers defined under kernel/lafem inlined as statements (parameters replaced by
+    the argument expressions - arrays, scalars, lambdas -; locals renamed; a value-returning helper must end in its only
+    return), (b) calls of lambdas beta-reduced (single-return lambdas), (c) `if constexpr` folded, (d) std::fill/copy as loops.
+    Returns fn itself when nothing changes.  Helpers that write their parameters, generic lambdas (only the pattern is
+    dumped) and recursive helpers are left alone - the caller's rule then reports the call as not modelled."""
+    import featlib
+    prog = {}
+    for f in fn.facts.functions:
+        if f.tk != "pattern" and f.body is not None and f.d.get("decl") is not None:
+            prog.setdefault(f.d["decl"], f)
+    changed = [False]
+
+    def callee_of(c, stack):
+        if c.get("k") != "Call" or c.get("noreturn"):
+            return None
+        f = prog.get(c.get("cdecl"))
+        if f is None or f is fn or f in stack or "/kernel/lafem/" not in (f.file or "") or len(stack) >= max_depth:
+            return None
+        if len(f.params) != len(c.get("a", [])) or f.d.get("virtual"):
+            return None
+        if _written_decls(f.body) & {p["d"] for p in f.params}:
+            return None
+        body = fold_constexpr(stmts(f.body))
+        rets = [y for y in walk({"k": "Block", "s": body}, prune=lambda x: x.get("k") == "Lambda") if y.get("k") == "Return"]
+        if len(rets) > 1 or (rets and rets[0] is not body[-1]):
+            return None
+        for a in c["a"]:
+            if any(y.get("k") == "Assign" or (y.get("k") == "Un" and y.get("op") in ("++", "--")) for y in walk(a, prune=lambda x: x.get("k") == "Lambda")):
+                return None
+        return f
+
+    def beta(n):
+        """calls of lambdas: `[..](T p){ return e; }(a)` -> e[p := a]"""
+        if isinstance(n, list):
+            return [beta(x) for x in n]
+        if not isinstance(n, dict):
+            return n
+        n = {k: (beta(v) if isinstance(v, (dict, list)) else v) for k, v in n.items()}
+        if n.get("k") == "OpCall" and n.get("op") == "()" and n.get("a") and strip(n["a"][0]).get("k") == "Lambda":
+            lam = strip(n["a"][0])
+            op = prog.get(lam.get("op_decl"))
+            b = stmts(lam.get("body"))
+            if op is not None and len(b) == 1 and b[0].get("k") == "Return" and b[0].get("e") is not None and len(op.params) == len(n["a"]) - 1:
+                changed[0] = True
+                return beta(subst(b[0]["e"], {p["d"]: a for p, a in zip(op.params, n["a"][1:])}))
+        return n
+
+    def expand(sts, stack):
+        out = []
+        for s in fold_constexpr(sts):
+            k = s.get("k")
+            if k == "Block":
+                out.extend(expand(s.get("s", []), stack))
+                continue
+            if k in ("For", "While", "Do", "ForRange") and s.get("body") is not None:
+                s = dict(s)
+                s["body"] = {"k": "Block", "l": s["body"].get("l"), "s": expand(stmts(s["body"]), stack)}
+                out.append(s)
+                continue
+            if k == "If":
+                s = dict(s)
+                for br in ("then", "else"):
+                    if s.get(br) is not None and s[br].get("k") != "Null_":
+                        s[br] = {"k": "Block", "l": s[br].get("l"), "s": expand(stmts(s[br]), stack)}
+                    elif s.get(br) is not None:
+                        s[br] = None
+                out.append(s)
+                continue
+            alg = algorithm_loop(s)
+            if alg is not None:
+                changed[0] = True
+                out.append(alg)
+                continue
+            # one inlinable call inside a simple statement
+            calls = [y for y in walk(s, prune=lambda x: x.get("k") == "Lambda") if y.get("k") == "Call" and callee_of(y, stack) is not None]
+            if len(calls) == 1 and k in ("Return", "Decl", "Assign", "Call"):
+                c = calls[0]
+                f = callee_of(c, stack)
+                body = fold_constexpr(stmts(f.body))
+                rename = {y["d"]: next(_fresh) for y in walk({"k": "Block", "s": body}) if y.get("k") == "Var"}
+                mapping = {p["d"]: a for p, a in zip(f.params, c["a"])}
+                body = [beta(subst(b, mapping, rename)) for b in body]
+                ret = body[-1] if body and body[-1].get("k") == "Return" else None
+                pre = body[:-1] if ret is not None else body
+                if s is c or (k == "Call" and strip(s) is c):
+                    rest = []
+                elif ret is not None and ret.get("e") is not None:
+                    def repl(n):
+                        if n is c:
+                            return ret["e"]
+                        if isinstance(n, dict):
+                            return {kk: (repl(v) if isinstance(v, dict) else [repl(x) for x in v] if isinstance(v, list) else v) for kk, v in n.items()}
+                        return n
+                    rest = [repl(s)]
+                else:
+                    out.append(s)
+                    continue
+                changed[0] = True
+                out.extend(expand(pre, stack + [f]))
+                out.extend(rest)
+                continue
+            out.append(s)
+        return out
+
+    n_constexpr = sum(1 for y in walk(fn.body) if y.get("k") == "If" and y.get("constexpr"))
+    body = beta(expand(stmts(fn.body), [fn]))
+    if not changed[0] and not n_constexpr:
+        return fn
+    d2 = dict(fn.d)
+    d2["body"] = {"k": "Block", "l": fn.body.get("l"), "s": body}
+    d2.pop("cfg", None)
+    d2["inlined"] = True
+    return featlib.Function(fn.facts, d2)
